@@ -168,7 +168,18 @@ func (d *intDecoder) decodeByte(buf []byte, cursor int64) ([]byte, int64, error)
 		case '0':
 			cursor++
 			return numZeroBuf, cursor, nil
-		case '-', '1', '2', '3', '4', '5', '6', '7', '8', '9':
+		case '-':
+			start := cursor
+			cursor++
+			for numTable[char(b, cursor)] {
+				cursor++
+			}
+			num := buf[start:cursor]
+			if len(num) < 2 {
+				return nil, 0, errors.ErrUnexpectedEndOfJSON("number(integer)", cursor)
+			}
+			return num, cursor, nil
+		case '1', '2', '3', '4', '5', '6', '7', '8', '9':
 			start := cursor
 			cursor++
 			for numTable[char(b, cursor)] {
